@@ -226,7 +226,7 @@ pub fn variants() -> Vec<&'static Variant> {
 }
 
 pub fn run(ctx: &Ctx) -> i32 {
-    ctx.run_variant(&V, ctx.scale(60_000, 1_000_000));
+    ctx.run_variant(&V, ctx.scale(500_000, 8_000_000));
     ctx.finish(
         "exploration",
         "generated patterns with 0-8 groups mixing unnamed, named (ASCII, non-ASCII, astral, \\u-escaped spellings) and names duplicated across alternatives at several nesting levels, inside loops and lookarounds; for every match of find_iter: captures.len() = number of capturing groups of the generator's AST (left-paren order), group/groups/size_hint identities, named_groups() = each distinct name once in source order with the participating group's range, named_group(name) = the same value, unknown/empty names -> None. Non-trivial = at least one named group and at least one non-participating group in a match.",
